@@ -111,6 +111,12 @@ class C05(Prop):
         ] + super().corpus()
 
     def generate(self, rng, n, deep=False):
+        # many small matrices against the brute force: PQ-tree slips show on well under 1 % of them
+        for i in range(3 * n):
+            nr, nc = rng.randint(3, 5), rng.randint(5, 7)
+            dens = rng.choice([0.35, 0.5, 0.65])
+            mat = [[1 if rng.random() < dens else 0 for _ in range(nc)] for _ in range(nr)]
+            yield {"kind": "matrix", "matrix": mat, "ncols": nc, "small": True, "planted": None}
         for i in range(n):
             r = rng.random()
             if r < 0.4:
